@@ -22,6 +22,21 @@ from .seeds import hfloat
 # run-id -> RunContext (see harness.py); lets plug-ins created by ropt find the
 # simulation they belong to (the id travels in the JSON-able optimizer options).
 ACTIVE: dict[int, Any] = {}
+# filled by inject samplers with the "retain" option when an array they handed out was modified
+RETAINED_TAMPERED: list[dict] = []
+RETAINERS: list[Any] = []
+
+
+def sweep_retained() -> list[dict]:
+    """Final look at every array a retaining sampler handed out; returns and clears the tamper records."""
+    for smp in RETAINERS:
+        for arr, pristine in smp._kept:
+            if not np.array_equal(arr, pristine):
+                RETAINED_TAMPERED.append({"sampler": smp._index, "call": "end"})
+    out = list(RETAINED_TAMPERED)
+    RETAINED_TAMPERED.clear()
+    RETAINERS.clear()
+    return out
 
 
 def ctx_for(options: Any) -> Any:
@@ -115,6 +130,9 @@ class InjectSampler(Sampler):
         self._mask = mask
         self._calls = 0
         self._opts = self._sc.options
+        self._kept: list[tuple[np.ndarray, np.ndarray]] = []  # (array handed out, pristine copy)
+        if isinstance(self._opts, dict) and self._opts.get("retain"):
+            RETAINERS.append(self)
 
     def generate_samples(self) -> np.ndarray:
         nv = self._config.variables.initial_values.size
@@ -123,7 +141,18 @@ class InjectSampler(Sampler):
         mask = np.ones(nv, dtype=bool) if self._mask is None else np.asarray(self._mask)
         call = self._calls
         self._calls += 1
-        return inject_samples(self._opts, bool(self._sc.shared), self._index, call, nr, npert, nv, np.where(mask)[0])
+        if not (isinstance(self._opts, dict) and self._opts.get("retain")):
+            return inject_samples(self._opts, bool(self._sc.shared), self._index, call, nr, npert, nv, np.where(mask)[0])
+        # a sampler that keeps what it handed out (a tabulated design): the arrays stay the sampler's own,
+        # and a call-independent design hands out the very same array again
+        for arr, pristine in self._kept:
+            if not np.array_equal(arr, pristine):
+                RETAINED_TAMPERED.append({"sampler": self._index, "call": call})
+        if self._kept and self._opts.get("design", "hash") in ("identity", "pm", "rankdef"):
+            return self._kept[0][0]
+        out = inject_samples(self._opts, bool(self._sc.shared), self._index, call, nr, npert, nv, np.where(mask)[0])
+        self._kept.append((out, out.copy()))
+        return out
 
 
 def inject_samples(opts: dict, shared: bool, index: int, call: int, nr: int, npert: int, nv: int, cols) -> np.ndarray:
